@@ -291,6 +291,12 @@ func normalizeVaryHeaderSeq2(vary string, reqHeader http.Header) iter.Seq2[strin
 				// NOTE: The policy of this cache is to use just the first header line
 				value = normalizeHeaderValue(name, values[0])
 			}
+			if len(values) > 1 {
+				// RFC 9111 §4.1: several field lines are combined into one list
+				// before comparison; ignoring all but the first line would let
+				// requests that differ in a nominated field share a response.
+				value = normalizeHeaderValue(name, strings.Join(values, ", "))
+			}
 			if !yield(name, value) {
 				return
 			}
@@ -344,7 +350,12 @@ func makeVaryHash(vary map[string]string) uint64 {
 	slices.Sort(keys)
 	for _, k := range keys {
 		_, _ = h.Write([]byte(k))
+		// Delimit names and values (neither can contain CR or LF): otherwise
+		// {X-A: "1", X-B: "2"} and {X-A: "1X-B2", X-B: ""} hash alike and one
+		// variant overwrites the other in the store.
+		_, _ = h.Write([]byte{'\r'})
 		_, _ = h.Write([]byte(vary[k]))
+		_, _ = h.Write([]byte{'\n'})
 	}
 	return h.Sum64()
 }
